@@ -181,6 +181,78 @@ def alias_value_edge(v):
             (v != "" and v[-1] in " \t\n\r") or '""' in v or "''" in v or t != v.lstrip() or v.strip() == "")
 
 
+# ------------------------------------------------------------------ the oracle's port of git 2.39 git.c
+# handle_options (which options exist, which take a detached value, which set *envchanged) and
+# handle_alias / run_argv (builtins win over aliases; the options an alias value starts with are
+# applied and may not change the environment; an alias expanding to itself and alias loops die).
+G_NOENV_NOVALUE = {"-p", "--paginate"}
+G_ENV_NOVALUE = {"-P", "--no-pager", "--no-replace-objects", "--bare", "--literal-pathspecs", "--glob-pathspecs",
+                 "--noglob-pathspecs", "--icase-pathspecs", "--no-optional-locks"}
+G_ENV_DETACHED = {"--git-dir", "--namespace", "--work-tree", "--super-prefix", "-c", "--config-env",
+                  "--shallow-file", "-C"}
+G_ENV_PREFIX = ["--git-dir=", "--namespace=", "--work-tree=", "--super-prefix=", "--config-env="]
+
+
+def git_handle_options(toks):
+    """-> (number of tokens consumed, envchanged, 'ok' | 'exit')   ('exit': query, unknown option, missing value)"""
+    i, env = 0, False
+    while i < len(toks):
+        t = toks[i]
+        if not t.startswith("-") or t in ("--help", "-h", "--version", "-v"):
+            break
+        if t in G_NOENV_NOVALUE or (t.startswith("--exec-path=")):
+            i += 1
+        elif t in G_ENV_NOVALUE or any(t.startswith(p) for p in G_ENV_PREFIX):
+            env = True
+            i += 1
+        elif t in G_ENV_DETACHED:
+            if i + 1 >= len(toks):
+                return i, env, "exit"
+            env = True
+            i += 2
+        else:
+            return i, env, "exit"
+    return i, env, "ok"
+
+
+def git_alias_expand(tbl, argv, builtins):
+    """What git itself ends up executing for `git argv` with these aliases, as the argument vector of an
+    equivalent fresh git process: ('vec', v) | ('die', why) | ('shell', None).  The options an alias value
+    starts with are applied in place by git; in the equivalent vector they stay in front of the command."""
+    last = {}
+    for n, v in tbl:
+        last[n] = v
+    k, _, st = git_handle_options(argv)
+    if st != "ok":
+        return ("exit", k)            # git stops at argv[k] (query, unknown option, missing value)
+    if k >= len(argv) or argv[k].startswith("-"):
+        return ("vec", list(argv))
+    opts, cmd, rest = list(argv[:k]), argv[k], list(argv[k + 1:])
+    seen = []
+    while True:
+        if cmd in builtins or cmd not in last:
+            return ("vec", opts + [cmd] + rest)
+        if cmd in seen:
+            return ("die", "alias loop")
+        seen.append(cmd)
+        val = last[cmd]
+        if val.lstrip(" \t\n\r").startswith("!"):
+            return ("shell", None)
+        toks = split_cmdline(val.lstrip(" \t\n\r"))
+        if toks is None:
+            return ("die", "bad alias string")
+        n, env, st = git_handle_options(toks)
+        if st != "ok":
+            return ("die", "option in alias")
+        if env:
+            return ("die", "alias changes environment variables")
+        if n >= len(toks):
+            return ("die", "empty alias")
+        if toks[n] == cmd:
+            return ("die", "recursive alias")
+        opts, cmd, rest = opts + toks[:n], toks[n], toks[n + 1:] + rest
+
+
 # ------------------------------------------------------------------ helpers
 def enc(a):
     return C.sx([C.cps(t) for t in a])
@@ -232,6 +304,33 @@ class Git:
             return (r.returncode, r.stdout, r.stderr)
         except subprocess.TimeoutExpired:
             return ("timeout", "", "")
+
+    def run_pty(self, a, exe=GIT):
+        """stdout on a pseudo terminal and a marking pager, so that -p/--paginate is observable"""
+        import pty
+        import select
+        env = dict(self.env, GIT_PAGER="sed s/^/PAGED:/", TERM="dumb")
+        env.pop("PAGER", None)
+        m, sl = pty.openpty()
+        p = subprocess.Popen([exe] + a, cwd=self.repo, env=env, stdin=subprocess.DEVNULL, stdout=sl,
+                             stderr=subprocess.PIPE)
+        os.close(sl)
+        out = b""
+        while True:
+            try:
+                rd, _, _ = select.select([m], [], [], 20)
+                if not rd:
+                    break
+                d = os.read(m, 4096)
+                if not d:
+                    break
+                out += d
+            except OSError:
+                break
+        err = p.stderr.read()
+        p.wait()
+        os.close(m)
+        return (p.returncode, out.decode(errors="replace").replace("\r\n", "\n"), err.decode(errors="replace"))
 
 
 ALPHA14 = ["-p", "-C", "-c", "-cx=y", "--git-dir", "--git-dir=/x", "--exec-path", "--help", "-v",
@@ -536,6 +635,108 @@ def run(ctx):
                                     "git_user": ga, "git_proxy": gb}))
         if len(samples) < 8:
             samples.append({"case": "alias", "aliases": tbl, "argv": a, "to_git": vec, "same_behaviour": ga == gb})
+    # ---- 4b. alias CHAINS of depth 2-4 whose intermediate values begin with global options
+    rch = r.fork("chains")
+    CH_NAMES = ["plog", "lg", "l1", "l2", "l3", "wrap", "inner", "mid", "outer", "q"]
+    OPT_GIT_OK = [["-p"], ["--paginate"], ["--exec-path=/usr/lib/git-core"], ["-p", "--paginate"]]
+    OPT_ENV = [["--no-pager"], ["-c", "a.b=c"], ["-ca.b=c"], ["-C", "."], ["--git-dir=.git"], ["-P"],
+               ["--no-replace-objects"], ["--literal-pathspecs"], ["-p", "-c", "x.y=z"], ["--work-tree=."]]
+    USER_OK = [[], [], ["-p"], ["--no-pager"], ["-c", "a.b=c"], ["-C", "."], ["--git-dir=.git"],
+               ["-p", "-c", "a.b=c"], ["--no-replace-objects"]]
+    USER_ANY = USER_OK + [["-ca.b=c"], ["-C."], ["--literal-pathspecs", "-P"]]
+    FINAL = ["rev-parse --git-dir", "rev-parse --is-inside-work-tree", "version", "config --get a.b",
+             "rev-parse '--git-dir' \"--is-bare-repository\""]
+    chains = [([("plog", "-p lg"), ("lg", "rev-parse --git-dir")], ["plog", "--is-bare-repository"], "git-ok"),
+              ([("plog", "-p lg"), ("lg", "--paginate l3 --git-dir"), ("l3", "rev-parse")], ["-c", "a.b=c", "plog"], "git-ok"),
+              ([("wrap", "--no-pager inner"), ("inner", "-c a.b=c q"), ("q", "config --get a.b")], ["wrap"], "env")]
+    for _ in range(400 if quick else 5000):
+        kind = rch.weighted([(1, "git-ok"), (1, "env")])
+        d = rch.range(2, 4)
+        names = rch.shuffle(CH_NAMES)[:d]
+        tbl = []
+        some_opt = False
+        for lvl in range(d):
+            pool = OPT_GIT_OK if kind == "git-ok" else (OPT_ENV + OPT_GIT_OK)
+            want_opt = rch.chance(2, 3) or (lvl == d - 2 and not some_opt)
+            opts = rch.pick(pool) if want_opt else []
+            if lvl < d - 1:
+                some_opt = some_opt or bool(opts)
+                body = [names[lvl + 1]] + rch.pick([[], [], ["--is-inside-work-tree"], ["--git-dir"]])
+            else:
+                opts = opts if rch.chance(1, 3) else []
+                body = [rch.pick(FINAL)]
+            toks = ["'%s'" % t if rch.chance(1, 8) else t for t in opts] + body
+            tbl.append((names[lvl], rch.pick([" ", " ", "  ", "\t"]).join(toks)))
+        if rch.chance(1, 4):          # unrelated entries, a shadowed earlier definition
+            tbl.insert(0, (names[0], "version"))
+            tbl.append((rch.pick(["zz", "st"]), "-p version"))
+        tbl = rch.shuffle(tbl) if rch.chance(1, 2) and tbl[0][0] != tbl[1][0] else tbl
+        user = rch.pick(USER_OK if kind == "git-ok" else USER_ANY)
+        a = user + [names[0]] + rch.pick([[], [], ["--git-dir"], ["--is-bare-repository"], ["--build-options"]])
+        chains.append((tbl, a, kind))
+    cin = [("c%d" % i, " ".join([C.sx(C.cps(rdir)), C.sx([[C.cps(n), C.cps(v)] for n, v in tbl]), enc(a)]))
+           for i, (tbl, a, _) in enumerate(chains)]
+    cimpl = C.run_cases(C.VHARNESS, "c18-resolve", cin, shards=min(C.NCPU, 4))
+    cmodel = C.run_cases(C.driver_path("cli"), "c18-resolve", cin) if ctx.model_ok else {}
+    n_chain_exact = n_chain_k6 = n_chain_pty = n_chain_git = 0
+    chain_expect = {}
+    port_bad = []
+    for i, (tbl, a, kind) in enumerate(chains):
+        key = "c%d" % i
+        out = cimpl.get(key)
+        if out is None or out == "panic":
+            violations.append((f"resolve_alias panicked or harness died on {tbl} {a}", {"kind": "resolve", "aliases": tbl, "argv": a, "impl": out}))
+            continue
+        if ctx.model_ok:
+            mo = cmodel.get(key)
+            if mo == "fuel":
+                n_fuel += 1
+            if mo != out:
+                mismatches.append((key, f"resolve differs on chain {tbl} {a}: impl {out[:120]} model {str(mo)[:120]}"))
+        vec = list(a) if out == "none" else dec_list(fields(out)["vec"])
+        distinct.add(("chain", tuple(tbl), tuple(a)))
+        exp = git_alias_expand(tbl, a, builtins)
+        if exp[0] == "vec":
+            chain_expect[i] = exp[1]
+            n_chain_exact += 1
+            if vec != exp[1]:
+                violations.append((f"aliases {tbl}: git {a} is handed to git as {vec}; git's own expansion is {exp[1]}",
+                                   {"kind": "alias-chain", "aliases": tbl, "argv": a, "to_git": vec,
+                                    "git_expansion": exp[1]}))
+            # the port itself against real git: git on the user's vector and on the port's expansion
+            if n_chain_git < (60 if quick else 600):
+                n_chain_git += 1
+                g.set_aliases(tbl)
+                ga, gb = g.run(a), g.run(exp[1])
+                n_git_runs += 2
+                if ga != gb:
+                    port_bad.append(f"{tbl} {a}: git differs from git {exp[1]}")
+                if n_chain_pty < (16 if quick else 120):
+                    n_chain_pty += 1
+                    pa, pb = g.run_pty(a), g.run_pty(vec)
+                    n_git_runs += 2
+                    if pa != pb:
+                        violations.append((f"aliases {tbl}: on a terminal git {a} and git {vec} (the proxy's vector) behave differently",
+                                           {"kind": "alias-chain-pty", "aliases": tbl, "argv": a, "to_git": vec,
+                                            "git_user": pa, "git_proxy": pb}))
+                    paged = pa[1].startswith("PAGED:")
+                    if paged != any(t in G_NOENV_NOVALUE for t in exp[1][:git_handle_options(exp[1])[0]]) and pa[0] == 0:
+                        port_bad.append(f"{tbl} {a}: paged={paged} but expansion is {exp[1]}")
+        elif exp[0] == "exit":
+            if vec[:exp[1] + 1] != a[:exp[1] + 1]:
+                violations.append((f"aliases {tbl}: git stops at token {exp[1]} of {a}, the proxy hands git {vec}",
+                                   {"kind": "alias-chain", "aliases": tbl, "argv": a, "to_git": vec}))
+        elif exp[0] == "die":
+            if vec != a:
+                n_chain_k6 += 1
+                if exp[1] in ("alias changes environment variables", "option in alias"):
+                    known_seen.add("C18-K6 alias expansion starting with a dash option is rescanned as global options "
+                                   "(git refuses or reports it)")
+        if len(samples) < 10 and i < 2:
+            samples.append({"case": "alias-chain", "aliases": tbl, "argv": a, "to_git": vec, "git_expansion": exp[1] if exp[0] == "vec" else list(exp),
+                            "kind": kind})
+    obligations.append(("monitor:the oracle's port of git's alias handling agrees with /usr/bin/git (incl. pager on a pty)",
+                        not port_bad, "; ".join(port_bad[:3])))
     g.set_aliases([])
     if ctx.model_ok:
         obligations.append(("monitor:resolve_alias never exhausts its fuel", n_fuel == 0, f"{n_fuel} cases"))
@@ -579,6 +780,28 @@ def run(ctx):
                 known_seen.add("C18-K4 a leading -- is swallowed by the binary's argument parser (clap) before the proxy sees it")
             else:
                 e_bad.append(f"{v}: binary ran git {got}, in-process {want_vec}")
+    n_chain_e2e = 0
+    for i, (tbl, a, kind) in enumerate(chains):
+        if i not in chain_expect or n_chain_e2e >= (40 if quick else 400):
+            continue
+        n_chain_e2e += 1
+        n_e2e += 1
+        g.set_aliases(tbl)
+        open(log, "w").close()
+        g.run(a, exe=C.GITAI, extra_env={"GIT_AI": "git", "C18_REC": log})
+        lines = [ln for ln in open(log, encoding="utf-8", errors="replace").read().split("\n") if ln]
+        got = lines[-1].split("\0")[1:-1] if lines else None
+        if got and len(got) >= 2 and got[0] == "-c" and got[1].startswith("core.hooksPath="):
+            got = got[2:]
+        if got != chain_expect[i]:
+            violations.append((f"aliases {tbl}: the git-ai binary ran git {got} for {a}; git's own expansion is {chain_expect[i]}",
+                               {"kind": "alias-chain-e2e", "aliases": tbl, "argv": a, "binary_ran": got,
+                                "git_expansion": chain_expect[i]}))
+        o = cimpl.get("c%d" % i)
+        want_vec = list(a) if o == "none" else (dec_list(fields(o)["vec"]) if o and o != "panic" else None)
+        if got != want_vec:
+            e_bad.append(f"aliases {tbl} {a}: binary ran git {got}, in-process {want_vec}")
+    g.set_aliases([])
     obligations.append(("tie:git-ai binary executes git with to_invocation_vec(parse_git_cli_args(argv))",
                         not e_bad, "; ".join(e_bad[:3])))
 
@@ -586,7 +809,7 @@ def run(ctx):
     obligations.append(("tie:correspondence Model/Cli.v vs parse_git_cli_args/to_invocation_vec/parse_alias_tokens/resolve_alias",
                         ok_corr and ctx.model_ok,
                         "; ".join(m[1] for m in mismatches[:3]) if mismatches else ("" if ctx.model_ok else "model did not build")))
-    evaluations = len(vecs) + len(dvecs) + len(avals) + len(rcases) + n_e2e
+    evaluations = len(vecs) + len(dvecs) + len(avals) + len(rcases) + len(chains) + n_e2e
     shutil.rmtree(os.path.join(ctx.scratch, "g"), ignore_errors=True)
     return {
         "obligations": obligations,
@@ -595,7 +818,8 @@ def run(ctx):
         "searched": f"all {n_exh} argument vectors of length <= {4 if quick else 5} over {ALPHA14} + {len(vecs) - n_exh} longer "
                     f"random vectors through parse_git_cli_args/to_invocation_vec (identity/normalisation/command oracle); "
                     f"{len(dvecs)} harmless vectors and {n_alias_git} alias cases differentially against /usr/bin/git "
-                    f"({n_git_runs} git runs); {len(avals)} alias values; {len(rcases)} alias tables; {n_e2e} end-to-end runs "
+                    f"({n_git_runs} git runs); {len(avals)} alias values; {len(rcases)} alias tables; {len(chains)} alias chains of depth 2-4 with "
+                    f"global options in intermediate values ({n_chain_exact} with the exact git-expansion oracle, {n_chain_e2e} through the binary); {n_e2e} end-to-end runs "
                     f"of the binary; {len(mismatches)} model/impl mismatches: " + "; ".join(m[1] for m in mismatches[:5]),
         "coverage": {
             "evaluations": evaluations,
@@ -610,6 +834,9 @@ def run(ctx):
                                    "random_vectors": len(vecs) - n_exh - len(corpus),
                                    "git_differential_vectors": len(dvecs), "changed_by_proxy": n_diff_changed,
                                    "alias_values": len(avals), "alias_tables": len(rcases),
+                                   "alias_chain_tables": len(chains), "alias_chains_git_accepts(exact vector oracle)": n_chain_exact,
+                                   "alias_chains_git_refuses(K6)": n_chain_k6, "alias_chain_git_runs": n_chain_git,
+                                   "alias_chain_pty_runs": n_chain_pty, "alias_chain_e2e_runs": n_chain_e2e,
                                    "alias_git_differentials": n_alias_git, "e2e_runs": n_e2e, "git_runs": n_git_runs},
             "hypothesis_hit_rate": {"no_pre_command_meta": f"{n_same}/{len(vecs)}", "meta_last": f"{n_norm}/{len(vecs)}",
                                     "Known_C18": f"{n_known}/{len(vecs)}"},
